@@ -189,6 +189,12 @@ def families(prop, tier):
                     cases.append(dict(backend='dict', gate_store=False, nmsgs=1, nrcpt=nr, backoff=bo,
                                       real_relay=dict(kind='pipe', behaviour={i + 1: b for i, b in enumerate(beh)}, timeout=7)))
         fams.append(dict(name='realrelay-pipe', mode='real', cases=cases))
+    # a bounce that cannot be delivered either: its own failure / exhaustion must not produce another bounce
+    if prop in ('C13',):
+        for bo in ([None], [0, None]):
+            fams.append(dict(name='bouncefail-dict', mode='dfs', depth=4 if len(bo) == 1 else 5, budget=3000 if q else 30000,
+                             cfg=dict(backend='dict', gate_store=False, nmsgs=1, nrcpt=2, backoff=bo,
+                                      outcomes=['ok', 'P2', 'T1', 'X', 'map:pt', 'map:tp'])))
     # F4: bounce policy: null senders, factory returning None, headers only, failing bounces
     if prop in ('C13',):
         for extra in (dict(), dict(null_sender=[1]), dict(factory_none=True), dict(headers_only=True)):
